@@ -35,7 +35,32 @@ async def s_slots(ctl):
 SCEN = Scenario("slots", s_slots, users=USERS, server_kwargs={"maximum_connections": 3})
 # the same sessions on a server with speed limits: its command channels wait in their throttles between lines
 SCEN_THROTTLED = Scenario("slots-throttled", s_slots, users=USERS, server_kwargs={"maximum_connections": 3, "read_speed_limit": 300, "write_speed_limit_per_connection": 400})
-SCENS = {"slots": SCEN, "slots-throttled": SCEN_THROTTLED}
+
+
+def slow_manager(users):
+    """a user manager of one's own (a database behind it): the shipped bookkeeping, but every call really waits"""
+    import asyncio
+
+    import aioftp
+
+    class SlowManager(aioftp.MemoryUserManager):
+        async def get_user(self, login):
+            await asyncio.sleep(0.05)
+            return await super().get_user(login)
+
+        async def authenticate(self, user, password):
+            await asyncio.sleep(0.05)
+            return await super().authenticate(user, password)
+
+        async def notify_logout(self, user):
+            await asyncio.sleep(0.01)
+            return await super().notify_logout(user)
+
+    return SlowManager(users)
+
+
+SCEN_SLOW_MANAGER = Scenario("slots-slow-manager", s_slots, users=USERS, server_kwargs={"maximum_connections": 3}, manager_factory=slow_manager)
+SCENS = {"slots": SCEN, "slots-throttled": SCEN_THROTTLED, "slots-slow-manager": SCEN_SLOW_MANAGER}
 
 
 def _job(args):
